@@ -96,6 +96,11 @@ EXTRA["C04"].append("'Nothing leaks / never twice' includes the run-exactly-once
 EXTRA["C15"].append("The structural part of 'eventually' is decided: every flush and bag overflow schedules a collection, every "
                     "collection tries to advance; that finitely many rounds suffice is not.")
 EXTRA["C17"].append("The retry wrappers return None only as the Ok payload of their last attempt (a lost race retries).")
+EXTRA["C02"].append("A Snapshot granted by WeakSnapshot::upgrade leaves the token or the current epoch on the count word (F12, fixed).")
+EXTRA.setdefault("C05", []).append("Every granting path of WeakSnapshot::upgrade's check leaves a trace on the count word (F12, fixed).")
+EXTRA["C08"].append("The exact word (tag included) is followed into and out of every link (LINK-TAG).")
+EXTRA["C09"].append("The exact word (tag included) is followed into and out of every link (LINK-TAG).")
+EXTRA.setdefault("C06", []).append("The loop over the popped edges visits every edge (no early-terminating adaptor, no break).")
 EXTRA["C16"] = ["unpin writes back a guard count read after the collection (F11, fixed)."]
 NOTE = ("trusted base: rustc nightly MIR/const-eval/callee resolution, the mirfacts exporter, the circlint path reader and "
         "higher-order models (Result::map, array::from_fn, LocalKey::with, scopeguard); only the live cfg! arm (x86-64) and "
